@@ -11,7 +11,7 @@ META = {
     "category": "proof",
     "text": "MJ/Model/Eval.lean is the documented semantics of the core fragment (expressions, if/elif/else, for/else/filter/unpacking/loop, set, set-block, with, filter-block, macros with defaults and keyword arguments, call blocks, break/continue) as a structurally recursive interpreter that shares nothing with the compiler and VM. Kernel-checked: assignments inside for/with/macro/call-block bodies leave every enclosing scope unchanged, assignments at template level and in if-branches persist, the loop object of iteration i is <i, len, xs[i-1]?, xs[i+1]?> for every list, the else branch runs iff the filtered sequence is empty; constant folding is sound; the back-patching code generator model equals a structured generator with resolved targets; vm_refines_eval_partial: the model VM on the generated code renders what the interpreter renders, for templates of text / emit / set (with unpacking) / set-block / filter-block / if / with / for-else with loop filter, break and continue over expressions with short-circuit and/or, if-expressions, filters, tests, attribute and item access, list and map literals. The engine is tied to the models by rendering generated programs with the real engine (real parser in the loop), by comparing the real instruction streams with the model generator's, and by running the model VM.",
     "design_ref": "DESIGN.md §3 C03",
-    "level_note": "Stage reached: " + STAGE + ". Trusted: Lean kernel; the reading of syntax.rs in MJ/Model/Eval.lean; hand transcription of codegen.rs / vm/mod.rs in MJ/Model/{Compile,Vm}.lean (validated on every generated macro-free program: instruction streams identical, VM results identical); harness unparse + serde AST dump (checked by AST equality on every case). Not proved: macros, call blocks and calls are modelled in Compile (instruction streams compared) and in the extended VM model VmM (results compared) but are not part of the refinement theorem.",
+    "level_note": "Stage reached: " + STAGE + ". Trusted: Lean kernel; the reading of syntax.rs in MJ/Model/Eval.lean; hand transcription of codegen.rs / vm/mod.rs in MJ/Model/{Compile,Vm}.lean (validated on every generated macro-free program: instruction streams identical, VM results identical); harness unparse + serde AST dump (checked by AST equality on every case). Not proved: macros, call blocks and calls are modelled in Compile (instruction streams compared) and in the extended VM model VmM (results compared) but are not part of the refinement theorem (a theorem for closure-free macros called at statement level would cover about 5% more of the generated programs — measured —, the general case needs the correctness of the shared write-through closures against by-reference scoping). The entry forms other than `render` are run against `renderAfter` (run P discarding its output, then the tail in the same top-level scope); vm_refines_eval_discard proves the model VM's discarding run for the proved fragment, the multi-template machinery itself (LoadBlocks, Include, ExportLocals, module objects) is validated by the differential runs only.",
 }
 
 STMT_HEADS = {"text", "emit", "ifs", "for", "set", "setb", "with", "fblk", "macro", "callb", "break", "continue"}
